@@ -110,7 +110,7 @@ def run(ctx):
     ctx.coq_props('Props/C12.v')
     gen_const.instance_obligations(ctx, 'C12', which=('tables',))
     q = ctx.tier == 'quick'
-    worldcheck.run_histories(ctx, 'C12', n_defsets=8 if q else 60, hist_per_set=4, sizes=[40, 120, 300], fault_rate=0.15, strict_too=True)
+    worldcheck.run_histories(ctx, 'C12', n_defsets=14 if q else 60, hist_per_set=4, sizes=[40, 120, 300], fault_rate=0.15, strict_too=True)
     survivors_test(ctx, 5 if q else 40, 3)
     get_info_modes(ctx)
 
